@@ -16,7 +16,7 @@ import (
 //  1. the same rules under a matrix of build configurations (the verdict on every
 //     obligation must be the same in each configuration that type-checks);
 //  2. the sensitivity run: every patch of the catalogue (/verif/mutants/<prop>/*.patch,
-//     /verif/seeded/<prop>-*/patch.diff, /verif/mutants/benign/<prop>-*.patch) is applied to a
+//     /verif/seeded/<prop>-*/patch.diff, /verif/mutants/benign/*.patch) is applied to a
 //     scratch copy of /repo, which is then ANALYSED (never run) by a child goosecheck
 //     process; the evidence records which breaking changes are caught and that the
 //     behaviour-preserving ones stay silent. Results never change the verdict on /repo.
@@ -78,7 +78,8 @@ func thorough(id string, run func(p *Prog, r *Report), repo, verif string, r *Re
 	for _, s := range ss {
 		vs = append(vs, variant{"seeded/" + filepath.Base(filepath.Dir(s)), s, "breaking"})
 	}
-	bs, _ := filepath.Glob(filepath.Join(verif, "mutants", "benign", id+"-*.patch"))
+	// every behaviour-preserving refactoring of the corpus is analysed under every property
+	bs, _ := filepath.Glob(filepath.Join(verif, "mutants", "benign", "*.patch"))
 	for _, b := range bs {
 		vs = append(vs, variant{"mutants/benign/" + filepath.Base(b), b, "benign"})
 	}
@@ -89,7 +90,7 @@ func thorough(id string, run func(p *Prog, r *Report), repo, verif string, r *Re
 		rules               []string
 	}
 	results := make([]res, len(vs))
-	sem := make(chan struct{}, 6)
+	sem := make(chan struct{}, 8)
 	var wg sync.WaitGroup
 	for i, v := range vs {
 		wg.Add(1)
